@@ -69,6 +69,13 @@ func (pass *DisjunctionInferMapping) ensureDiscriminator(schema *ast.Schema, def
 	return disjunction, nil
 }
 
+// resolve follows a reference, whichever schema it points into.
+func (pass *DisjunctionInferMapping) resolve(typeDef ast.Type) (ast.Type, bool) {
+	resolved := pass.schemas.ResolveToType(typeDef)
+
+	return resolved, !resolved.IsRef()
+}
+
 // inferDiscriminatorField tries to identify a field that might be used
 // as a way to distinguish between the types in the disjunction branches.
 // Such a field must:
@@ -83,7 +90,7 @@ func (pass *DisjunctionInferMapping) inferDiscriminatorField(schema *ast.Schema,
 
 	// Identify candidates from each branch
 	for _, branch := range def.Branches {
-		referredType, found := schema.Resolve(branch)
+		referredType, found := pass.resolve(branch)
 		if !found {
 			continue
 		}
@@ -145,7 +152,7 @@ func (pass *DisjunctionInferMapping) buildDiscriminatorMapping(schema *ast.Schem
 	}
 
 	for _, branch := range def.Branches {
-		referredType, found := schema.Resolve(branch)
+		referredType, found := pass.resolve(branch)
 		if !found {
 			return nil, fmt.Errorf("could not resolve reference '%s'", branch.AsRef().String())
 		}
